@@ -8,6 +8,16 @@ package account
 //@   opt heap-independent
 //@   ensures result != nil && result.GetAddress() == address
 
+// Re-basing the account cache on another block (reload from the store) touches only the account layer: assumed.
+//@ func (*Manager).Reset   trusted
+//@   modifies allbut(transaction.TxProcessor, types.Transaction, types.txdata, types.Header, []*types.Transaction, params, "bigval")
+// Snapshots and reverts at manager level likewise (the journal below them is under contract for C07); the block gas counter is
+// not account state.
+//@ func (*Manager).Snapshot   trusted
+//@   modifies allbut(transaction.TxProcessor, types.Transaction, types.txdata, types.Header, []*types.Transaction, params, "bigval", types.GasPool)
+//@ func (*Manager).RevertToSnapshot   trusted
+//@   modifies allbut(transaction.TxProcessor, types.Transaction, types.txdata, types.Header, []*types.Transaction, params, "bigval", types.GasPool)
+
 // ---------------------------------------------------------------------------------------------------------------------
 // C07: the journal.  Undoing a change log must also take back the provisional version it consumed: after RevertToSnapshot the
 // next-version counter of every (account, log type) touched by an undone log is below that log's version, so that later writes
